@@ -125,6 +125,11 @@ func judgeC05(c ReqCase) *Fail {
 		return failf("electre-accepted", "valid ELECTRE III request rejected: %s", out.Err)
 	}
 	r := parseResp(out.Body)
+	if len(v.Chose) >= 65 {
+		st.inc("C05:alternatives>=65")
+	} else if len(v.Chose) >= 7 {
+		st.inc("C05:alternatives 7-16")
+	}
 	if f := electreLinksOracle(r); f != nil {
 		return f
 	}
@@ -182,10 +187,10 @@ func genElectreReq(t *rapid.T, minAlts int) GenReq {
 	}
 	// "any number of alternatives": mostly small (every tie layout is reachable with six), sometimes a few dozen,
 	// rarely more than a machine word of them
-	if g.Chance(1, 20) {
+	if g.Rare(4) {
 		o.MinAlts, o.MaxAlts = 7, 16
-	} else if g.Chance(1, 2500) {
-		o.MinAlts, o.MaxAlts, o.ForceAllCons = 65, 70, 1 // about a second each
+	} else if g.Rare(10) {
+		o.MinAlts, o.MaxAlts, o.ForceAllCons = 65, 70, 1 // tens of milliseconds each
 	}
 	gr := genRequest(t, o)
 	if len(asL(gr.Req["choseToMake"])) >= 65 {
